@@ -29,7 +29,7 @@ assert a.returncode == 0, a.stderr
 try:
     for c in checks:
         t0 = time.time()
-        r = run(["./check", c], cwd="/verif")
+        r = run(["./check", c], cwd="/verif", env=dict(os.environ, VERIF_EVIDENCE_DIR="/tmp/seed_evidence"))
         lines = [l for l in r.stdout.splitlines() if any(w in l for w in ("VIOLATION", "OK property", "UNDECIDED", "CHECKER-ERROR", "KNOWN"))]
         results[c] = dict(exit=r.returncode, lines=lines[:8], wall=round(time.time() - t0, 1))
         print(c, "exit", r.returncode, "|", " | ".join(lines[:6])[:900])
